@@ -52,7 +52,7 @@ func genC19(kind string) func(r *core.Rng) any {
 			fmt.Fprintf(&sb, ` width="%s%s" height="%s%s"`, c19Num(vw*scale/conv), unit, c19Num(vh*scale/conv), unit)
 		}
 		fmt.Fprintf(&sb, ` viewBox="%s %s %s %s">`, c19Num(minx), c19Num(miny), c19Num(vw), c19Num(vh))
-		useCSS := kind == "css" || kind == "specificity" || r.Chance(0.25)
+		useCSS := kind == "css" || kind == "specificity" || kind == "combinator" || r.Chance(0.25)
 		if useCSS {
 			sb.WriteString("<style>")
 			n := r.IntRange(1, 3)
@@ -65,6 +65,15 @@ func genC19(kind string) func(r *core.Rng) any {
 			}
 			if kind == "specificity" {
 				pool = []string{".a", ".b", "rect", "circle", "path", "g .a", ".c", "g rect"}
+			}
+			if kind == "combinator" {
+				// three type selectors joined by child or descendant combinators: equal specificity
+				pool = nil
+				for len(pool) < 6 {
+					a, b := core.PickS(r, []string{"svg", "g"}), "g"
+					cmb := func() string { return core.PickS(r, []string{" ", ">"}) }
+					pool = append(pool, a+cmb()+b+cmb()+core.PickS(r, []string{"rect", "circle", "path", "ellipse", "polygon", "g"}))
+				}
 			}
 			for k := 0; k < n; k++ {
 				sel := core.PickS(r, pool)
@@ -122,6 +131,9 @@ func genC19(kind string) func(r *core.Rng) any {
 		n := r.IntRange(1, 5)
 		for k := 0; k < n; k++ {
 			depth := core.PickI(r, []int{0, 0, 1, 2})
+			if kind == "combinator" {
+				depth = core.PickI(r, []int{1, 2, 3, 3})
+			}
 			for d := 0; d < depth; d++ {
 				var attrs, style []string
 				if r.Chance(0.6) {
@@ -216,7 +228,8 @@ type svgProps map[string]string
 var svgInherited = []string{"fill", "stroke", "stroke-width", "stroke-linecap", "stroke-linejoin", "stroke-miterlimit", "fill-rule", "stroke-dasharray", "stroke-dashoffset"}
 
 type cssRuleRef struct {
-	sel   []string // compound selectors separated by descendant combinators
+	sel   []string // compound selectors
+	child []bool   // child[i]: sel[i] is joined to sel[i-1] by '>' (else by a descendant combinator)
 	decls [][2]string
 	order int
 }
@@ -357,7 +370,17 @@ func evalSVG(doc string, eps float64) (W, H float64, prims []c12Prim, err error)
 					if len(parts) != 2 {
 						continue
 					}
-					rule := cssRuleRef{sel: strings.Fields(parts[0]), order: k}
+					rule := cssRuleRef{order: k}
+					for _, tk := range strings.Fields(strings.ReplaceAll(parts[0], ">", " > ")) {
+						if tk == ">" {
+							rule.child = append(rule.child, true)
+							continue
+						}
+						rule.sel = append(rule.sel, tk)
+						if len(rule.child) < len(rule.sel) {
+							rule.child = append(rule.child, false)
+						}
+					}
 					for _, d := range strings.Split(parts[1], ";") {
 						if kv := strings.SplitN(d, ":", 2); len(kv) == 2 {
 							rule.decls = append(rule.decls, [2]string{strings.TrimSpace(kv[0]), strings.TrimSpace(kv[1])})
@@ -437,20 +460,23 @@ func evalSVG(doc string, eps float64) (W, H float64, prims []c12Prim, err error)
 				if !match(rule.sel[len(rule.sel)-1], fr) {
 					continue
 				}
-				ok := true
-				k := len(stack) - 1
-				for s := len(rule.sel) - 2; s >= 0 && ok; s-- {
-					found := false
+				// ancestors, right to left with backtracking
+				var up func(si, k int) bool
+				up = func(si, k int) bool { // sel[si] must match an ancestor at or above stack[k] as the combinator of sel[si+1] allows
+					if si < 0 {
+						return true
+					}
+					if rule.child[si+1] {
+						return k >= 0 && match(rule.sel[si], stack[k]) && up(si-1, k-1)
+					}
 					for ; k >= 0; k-- {
-						if match(rule.sel[s], stack[k]) {
-							found = true
-							k--
-							break
+						if match(rule.sel[si], stack[k]) && up(si-1, k-1) {
+							return true
 						}
 					}
-					ok = found
+					return false
 				}
-				if !ok {
+				if !up(len(rule.sel)-2, len(stack)-1) {
 					continue
 				}
 				spec := 0
@@ -785,6 +811,7 @@ func init() {
 			{Name: "viewbox", Quick: 400, Thorough: 10000, Gen: genC19("viewbox")},
 			{Name: "css", Quick: 400, Thorough: 10000, Gen: genC19("css")},
 			{Name: "roundtrip", Quick: 400, Thorough: 10000, Gen: genC19RoundTrip},
+			{Name: "combinator", Quick: 500, Thorough: 10000, Gen: genC19("combinator")},
 			{Name: "specificity", Quick: 300, Thorough: 5000, Gen: genC19("specificity"), WitnessOnly: true, Note: "style sheets whose rules differ in specificity (type vs class vs descendant selectors): the parser applies rules in document order only"},
 		},
 		NewCase:  func() any { return &c19Case{} },
